@@ -349,6 +349,19 @@ def per_document_region(obs):
             if "self.policy" in args and any("PerDocument" in a for a in args) and tt != ff:
                 edge = tt if last_seg(sym[1]) == "eq" else ff
                 cands.append({x for x in obs.live_blocks if obs.dominates(edge, x)})
+    # the same test written as a `match self.policy { PerDocument => .., AllContent => .. }`
+    for b in sorted(obs.live_blocks):
+        t = obs.blocks[b]["term"]
+        if t["k"] != "switch":
+            continue
+        sym = obs.sym_operand(t["o"])
+        if sym[0] == "discr" and render(sym[1]) == "self.policy":
+            names = [v["name"] for v in obs.facts.adt("budget::EnforcingPolicy")["variants"]]
+            if "PerDocument" in names:
+                idx = names.index("PerDocument")
+                edge = t["tgts"][t["vals"].index(idx)] if idx in t["vals"] else t["tgts"][-1]
+                if t["tgts"].count(edge) == 1:
+                    cands.append({x for x in obs.live_blocks if obs.dominates(edge, x)})
     for reg in cands:
         for x in reg:
             t = obs.blocks[x]["term"]
